@@ -77,7 +77,25 @@ NATIVE = [
      [var(("N", ("opt", var(("A", "null"), ("B", "int16"), ("C", rec(("x", ("opt", "nat8"))))))),
           ("S", rec(("list", ("vec", "nat8")), ("t", rec((0, "nat8"), (1, "nat8"))))))], {}, None),
     ("Result<u8, Empty>", [var(("Ok", "nat8"), ("Err", "empty"))], {}, None),
+    # borrowed byte slices: read only from a blob on the wire (vectors of another element type do not coerce into a borrow:
+    # a type mismatch, which reads as null below an expected opt)
+    ("Option<&[u8]>", [("opt", ("vec", "nat8"))], {}, "borrowed"),
+    ("(&[u8], u8)", [("vec", "nat8"), "nat8"], {}, "borrowed"),
+    ("R3 { data: Option<&[u8]>, n: u8 }", [rec(("data", ("opt", ("vec", "nat8"))), ("n", "nat8"))], {}, "borrowed"),
 ]
+
+
+def borrowed(t):
+    """the expected types of a Rust type that BORROWS its byte slices: `vec nat8` becomes the host-restricted `blobref`"""
+    if isinstance(t, list):
+        return [borrowed(x) for x in t]
+    if isinstance(t, str) or t[0] == "ref":
+        return t
+    if t == ("vec", "nat8"):
+        return "blobref"
+    if t[0] in ("opt", "vec"):
+        return (t[0], borrowed(t[1]))
+    return (t[0], [(i, borrowed(x)) for i, x in t[1]])
 
 
 def is_nullable(t, env):
@@ -239,7 +257,7 @@ def run(pid, build_replay):
             except (KeyError, ValueError, IndexError):
                 continue
             ENVS["w"], ENVS["e"] = env, env
-            want = coerce_args(vals, tys, exps)
+            want = coerce_args(vals, tys, borrowed(exps) if norm == "borrowed" else exps)
             if want is not FAIL and norm == "map":
                 want = [map_normal_form(want[0])]
             if want is not FAIL and norm == "set":
